@@ -1310,6 +1310,18 @@ func init() {
 			h := e.get(env.state(), cls+"#has", Arr(RefS, Arr(ks, BoolS)))
 			return env.mkBool(c.Select(c.Select(h, m.T), e.mapKeyTerm(e.coerce(k, mt.Key()), mt.Key())))
 		},
+		"bufWrites": func(env *Env, n *ast.CallExpr, args []*SVal) *SVal {
+			// bufWrites(&b): number of Write calls made on the bytes.Buffer b since it was created
+			e := env.e
+			g := e.get(env.state(), "ghost:bufwrites", Arr(RefS, BV64))
+			return &SVal{K: KScalar, Typ: types.Typ[types.Int], T: e.c.Select(g, args[0].T)}
+		},
+		"bufLen": func(env *Env, n *ast.CallExpr, args []*SVal) *SVal {
+			// bufLen(&b): number of bytes written to the bytes.Buffer b since it was created
+			e := env.e
+			g := e.get(env.state(), "ghost:buflen", Arr(RefS, BV64))
+			return &SVal{K: KScalar, Typ: types.Typ[types.Int], T: e.c.Select(g, args[0].T)}
+		},
 		"mapLenSum": func(env *Env, n *ast.CallExpr, args []*SVal) *SVal {
 			// mapLenSum(m): the sum of the lengths of the slices stored in a map - an uninterpreted function
 			// of the map's key set and of the stored lengths, of which only this is known: it is not negative,
@@ -2498,6 +2510,14 @@ func (e *Encoder) restoreFrame(fr *frame, pre *State, args []*SVal) {
 	walk = func(ref *Term, t types.Type, depth int) {
 		if depth > 4 {
 			return
+		}
+		if isBytesBuffer(t) && !covered(ref) {
+			// the write counters of a buffer the callee cannot reach
+			for _, g := range []string{"ghost:bufwrites", "ghost:buflen"} {
+				old := e.get(pre, g, Arr(RefS, BV64))
+				cur := e.get(e.cur, g, Arr(RefS, BV64))
+				e.set(e.cur, g, e.c.Store(cur, ref, e.c.Select(old, ref)))
+			}
 		}
 		switch u := t.Underlying().(type) {
 		case *types.Struct:
